@@ -25,3 +25,24 @@ def step_budget(cls, method, limit):
         yield n
     finally:
         setattr(cls, method, orig)
+
+
+@contextlib.contextmanager
+def time_budget(seconds):
+    """Wall-clock budget for one call of the code under check (used where a non-terminating loop has no method to count,
+    e.g. a bytearray grown one octet at a time): exceeding it raises Hang, which replays concretely."""
+    import signal
+
+    fired = []
+
+    def on_alarm(signum, frame):
+        fired.append(1)  # (visible to the caller even if the code under check converts the exception)
+        raise Hang("call did not finish within %s s" % seconds)
+
+    old = signal.signal(signal.SIGALRM, on_alarm)
+    signal.setitimer(signal.ITIMER_REAL, seconds)
+    try:
+        yield fired
+    finally:
+        signal.setitimer(signal.ITIMER_REAL, 0)
+        signal.signal(signal.SIGALRM, old)
